@@ -166,6 +166,7 @@ func runC07(c *Ctx) {
 	r.Doc("E10", "the scheduler's idle pause is a small constant (closed inputs are observed, and termination signalled, promptly)", 2)
 	r.Doc("E13", "outside selects the scheduler waits only for releases, the inner discipline, a tick of a ticker that only the entry's deferred clean-up stops, or a short constant time.After", 3)
 	r.Doc("E14", "every channel the discipline makes and hands out through an exported method is closed by a defer of its goroutine entry (v2)", 2)
+	r.Doc("E16", "(= N3) a round is allotment -> spend -> re-divide the remainder -> spend again: no exit between the phases except on error / stop", 2)
 	r.Doc("E15", "(= N2) the scheduler blocks for a release only when the round-start calculation could not proceed, or in the final wait-for-zero", 3)
 	r.Doc("E11", "(= X1) every configured / added input is registered in the table under its own key, unconditionally", 4)
 	r.Doc("E12", "(= X9) v1 Simple: the supervising goroutine waits only for stop, cancel, the graceful request and the inner discipline's end", 7)
@@ -188,6 +189,18 @@ func runC07(c *Ctx) {
 		c07errChannel(c, p)
 		checkConstantIdleSleep(c, sr, "E10")
 		checkSchedulerWaits(c, sr, "E13")
+		// E16 (= N3): every round runs both phases. An input whose priority has no share of its own
+		// (v1 accepts such configurations) is read - and observed closed - only in the second phase: a
+		// round that ends after the first phase never marks it drained, and the discipline never ends
+		if pr, err := resolvePrio(p); err == nil {
+			sub := &Ctx{V1: c.V1, V2: c.V2, Tier: c.Tier, R: NewReport("tmp", c.Tier)}
+			checkN3(sub, pr)
+			for _, o := range sub.R.Obls {
+				if o.Rule == "N3" && !strings.Contains(o.Key, "#remainder") {
+					c.R.Check(o.OK, "E16", o.Key, o.Site, o.Detail, o.Detail)
+				}
+			}
+		}
 		// E15 (= N2): a blocking wait for a release is reached only when the round-start calculation
 		// could not proceed (something is in flight) or in the final wait-for-zero: anywhere else the
 		// scheduler may park with nothing in flight, and then observes neither closed inputs nor the
